@@ -429,9 +429,13 @@ def ptprocess_scenarios(ctx):
                [("open", ""), ("ask", "INT"), ("ask", "TERM")], [("open", ""), ("ask", "STDIN")], [("open", ""), ("close", ""), ("ask", "INT")],
                [("open", ""), ("close", "")], [("open", ""), ("ask", "INT"), ("ask", "STDIN"), ("close", "")]]
     k = 0
+    # (a connection that is just opened keeps its handler active for the length of the handshake timeout: 30 s and more on a
+    # bridge, but only 5 s - the SOCKS request timeout - on a client; scripts that hold connections run on bridges)
+    servers = [x for x in runners if x["env"]["role"] == "server"]
     for rep in range(1 if quick else 6):
         for sc in scripts:
-            e = runners[k % len(runners)]
+            pool = servers if any(a == "open" for a, _ in sc) else runners
+            e = pool[k % len(pool)]
             scen.append({"id": "ptlife%d" % k, "env": e["env"], "steps": [{"a": a, "s": s} for a, s in sc], "group": "life"}); k += 1
     # a recorded deviation, not a verdict: a flood of connections under a small descriptor limit (group "note")
     for rep in range(1 if quick else 3):
